@@ -90,4 +90,7 @@ class WFQ(Scheduler):
             f"finish_time {self.finish_times[class_id]}"
         )
 
-        self.store.put(PriorityItem((self.finish_times[class_id], now), packet))
+        # equal stamps at one instant (zero-length packets) keep their arrival order
+        self.store.put(
+            PriorityItem((self.finish_times[class_id], now, self.packets_received), packet)
+        )
